@@ -68,7 +68,16 @@ def _payload_canon(text, is_json):
     return canon_nx(g, drop_graph_id=True)
 
 
-PAYLOAD_CANON = {'P1': _payload_canon(PAYLOADS['P1'], False), 'P2': _payload_canon(PAYLOADS['P2'], True)}
+def _classless_payload():
+    g = _payload_graph(['1', '2'], ['u', 'w'], extra={'K': 'p3'})
+    del g.nodes['2']['Class']               # importable (only NodeID is required) but not valid: a node and the edge lack Class
+    del g.edges['1', '2']['Class']
+    return _graphml(g)
+
+
+PAYLOADS['P3'] = _classless_payload()
+PAYLOAD_CANON = {'P1': _payload_canon(PAYLOADS['P1'], False), 'P2': _payload_canon(PAYLOADS['P2'], True),
+                 'P3': _payload_canon(PAYLOADS['P3'], False)}
 DIRECT_CANON = _payload_canon(DIRECT['G1'], False)
 
 
@@ -141,6 +150,8 @@ class StoreModel(Model):
             ev.append(('import', g, 'P1'))
             ev.append(('import', g, 'P2'))
             ev.append(('import_direct', g))
+            if g == 'G3':
+                ev.append(('import', g, 'P3'))       # a graph that is importable but does not validate (Class missing)
             # an import that must fail (a node without NodeID) of a document whose nodes name ANOTHER graph as theirs
             ev.append(('import_bad', g, GIDS[(GIDS.index(g) + 1) % len(GIDS)]))
             for i in ('a', 'c'):
@@ -280,11 +291,20 @@ class StoreModel(Model):
                 got = None
             if got != want:
                 v.append((f'read-isolation/{fl}/list_all_node_ids', f'{gid}: API lists {got}, store holds {want}'))
+            # a graph whose own nodes and links all carry Class validates, whatever else lives in the store
+            own_ok = all(d.get('Class') for _, d in raw[gid].nodes(data=True)) and all(d.get('Class') for _, _, d in raw[gid].edges(data=True))
+            if own_ok and want and None not in [d.get('NodeID') for _, d in raw[gid].nodes(data=True)]:
+                try:
+                    g.validate_graph()
+                except Exception as e:
+                    v.append((f'read-isolation/{fl}/validate_graph', f'{gid} is complete but validate_graph() raised {type(e).__name__}: {e}'))
             if want:
                 for nid in set(want):
                     if want.count(nid) > 1:
                         continue
                     rawp = [dict(d) for _, d in raw[gid].nodes(data=True) if d.get('NodeID') == nid][0]
+                    if 'Class' not in rawp:
+                        continue           # an invalid node of this very graph (payload P3); reading it is not an isolation question
                     try:
                         _, props = g.get_node_properties(node_id=nid)
                     except Exception as e:
